@@ -113,3 +113,10 @@ claimed["C09"] = (
     "rebuilding a scope includes ApplySelf; struct-mapped objects are rebuilt map-based, so only their acceptance is compared",
     "DESIGN.md §3 C09",
 )
+claimed["C10"] = (
+    "fault_enumeration",
+    "supervised mutation of valid schema descriptions at every node, through UnserializeScope / UnserializeSchema / Client.ReadSchema, followed by exercising whatever was accepted (recovered panics, fatal-crash attribution, CPU-time hang verdict)",
+    "Descriptions produced by SelfSerialize for generated scopes and plugin schemas (each carrying at least a one-of, a map and a list) are mutated exhaustively per description: at every node every applicable single mutation (delete, retype, rename, duplicate, re-point ids / roots / namespaces / discriminator names, all 15 type ids, grafting a complete description of another type, bad defaults and patterns, flipped flags, extreme bounds, bad unit multipliers), plus sampled pairs, grammar-free trees and hostile values; also after CBOR and in the hello message of a fake ATP server. Accepted results are linked and then driven through Unserialize / ValidateCompatibility / Validate / Serialize with valid, perturbed, hostile and unknown-discriminator inputs and through the accessors. Any panic at load, while linking or on use is a violation.",
+    "a scope from UnserializeScope whose only unlinked references point to an EXTERNAL namespace is not exercised (linking those is the caller's job); quick enumerates 24 descriptions, thorough 900",
+    "DESIGN.md §3 C10",
+)
